@@ -254,6 +254,23 @@ def new_constants(tree, pin):
     return out
 
 
+def _fold_constant_tests(body):
+    """`if <constant> is None:` / `is not None` after a parameter was replaced by a constant argument: keep the branch that runs"""
+    out = []
+    for st in body:
+        if isinstance(st, ast.If) and isinstance(st.test, ast.Compare) and len(st.test.ops) == 1 and isinstance(st.test.ops[0], (ast.Is, ast.IsNot)) \
+                and isinstance(st.test.left, ast.Constant) and isinstance(st.test.comparators[0], ast.Constant):
+            truth = (st.test.left.value is st.test.comparators[0].value) == isinstance(st.test.ops[0], ast.Is)
+            out.extend(_fold_constant_tests(st.body if truth else st.orelse))
+            continue
+        for fld in ('body', 'orelse', 'finalbody'):
+            sub_ = getattr(st, fld, None)
+            if isinstance(sub_, list) and sub_ and isinstance(sub_[0], ast.stmt) and not isinstance(st, SCOPES):
+                setattr(st, fld, _fold_constant_tests(sub_) or [ast.Pass()])
+        out.append(st)
+    return out
+
+
 class _Subst(ast.NodeTransformer):
     """replace Load occurrences of names by expressions; does not enter scopes that rebind the name"""
 
@@ -405,6 +422,9 @@ def _immutable_default(d):
         return _immutable_default(d.operand)
     if isinstance(d, ast.Tuple):
         return all(_immutable_default(x) for x in d.elts)
+    if isinstance(d, ast.BinOp) and isinstance(d.op, (ast.Add, ast.Mult, ast.Sub)):
+        # arithmetic / concatenation of constants and tuples gives a new immutable value (a Name operand could be a list: refused)
+        return all(_immutable_default(x) and not isinstance(x, (ast.Name, ast.Attribute)) for x in (d.left, d.right))
     return False
 
 
@@ -594,6 +614,15 @@ class Inliner(object):
                 deco = [ast.unparse(d) for d in self.helpers[q][0].decorator_list]
                 if 'staticmethod' in deco:
                     return q, None
+            # <object>._newmethod(...): a method that is new relative to the pinned module and whose name is defined by exactly one
+            # class of the module (and by no pinned function) can only be that one - inlined with the object bound to its first parameter
+            if f.attr.startswith('_') and not f.attr.startswith('__'):
+                cands = [k for k in self.helpers if k.endswith('.' + f.attr) and self.helpers[k][2] is not None]
+                clash = [k for k in list(self.cur) + list(self.pin) if (k == f.attr or k.endswith('.' + f.attr)) and k not in cands]
+                if len(cands) == 1 and not clash:
+                    deco = [ast.unparse(d) for d in self.helpers[cands[0]][0].decorator_list]
+                    if not deco:
+                        return cands[0], f.value
         return None
 
     def only_called(self, q):
@@ -677,6 +706,12 @@ class Inliner(object):
             if p not in stored and _is_trivial_arg(a) and not has_scopes:
                 subst[p] = a
                 continue
+            if p not in stored and has_scopes and self._closure_safe(hfn, p, a, caller, st):
+                # a helper that builds closures: the parameter is read by the nested functions when they run, so it may be replaced
+                # by the argument only when that is a constant, or a caller name that is never bound again (late binding sees the
+                # same object), and no nested scope has a name of its own that would capture it
+                subst[p] = a
+                continue
             if p in caller_reads and not (isinstance(a, ast.Name) and a.id == p):
                 # binding the parameter by assignment would overwrite a caller variable of the same name
                 newp = p + '_' + fn.name.strip('_')
@@ -691,6 +726,7 @@ class Inliner(object):
         if subst:
             s = _Subst(subst)
             hbody = [s.visit(x) for x in hfn.body]
+            hbody = _fold_constant_tests(hbody)
         else:
             hbody = hfn.body
         if isinstance(st, ast.Return):
@@ -728,6 +764,30 @@ class Inliner(object):
                     y.end_col_offset = getattr(y, 'end_col_offset', 0)
             ast.fix_missing_locations(x)
         return out
+
+    def _closure_safe(self, hfn, p, a, caller, st):
+        nested = [n for n in ast.walk(hfn) if isinstance(n, SCOPES) and n is not hfn]
+        for sc in nested:
+            own = set(params_of(sc)) if not isinstance(sc, ast.ClassDef) else set()
+            own |= set(x.id for x in own_nodes(sc) if isinstance(x, ast.Name) and isinstance(x.ctx, (ast.Store, ast.Del)))
+            if p in own:
+                return False
+            if isinstance(a, ast.Name) and a.id in own:
+                return False
+        if isinstance(a, ast.Constant):
+            return True
+        if isinstance(a, ast.Name):
+            # every binding of the caller's name happens before the call statement, and the call is not inside a loop
+            for n in ast.walk(caller):
+                if isinstance(n, ast.Name) and n.id == a.id and isinstance(n.ctx, (ast.Store, ast.Del)) and getattr(n, 'lineno', 0) >= st.lineno:
+                    return False
+            par = self.parent.get(id(st))
+            while par is not None and par is not caller:
+                if isinstance(par, (ast.For, ast.While)):
+                    return False
+                par = self.parent.get(id(par))
+            return True
+        return False
 
     # -- driver --------------------------------------------------------------------------------------------------------------
     def run(self):
@@ -1205,6 +1265,41 @@ def _is_access_path(e):
     return False
 
 
+def _each_load_fed_by_previous_assign(fn, name, parent):
+    """every read of `name` sits in a statement whose predecessor in the same block is `name = <expr>` (so each definition reaches
+    exactly the reads of the statement after it, whatever else the function does with the name)"""
+    loads = [x for x in ast.walk(fn) if isinstance(x, ast.Name) and x.id == name and isinstance(x.ctx, ast.Load)]
+    if not loads:
+        return False
+    for u in loads:
+        node = u
+        ok = False
+        while node is not None and node is not fn:
+            par = parent.get(id(node))
+            if isinstance(node, ast.stmt) and par is not None:
+                for fld in ('body', 'orelse', 'finalbody'):
+                    b = getattr(par, fld, None)
+                    if isinstance(b, list) and node in b:
+                        i = b.index(node)
+                        prev = b[i - 1] if i > 0 else None
+                        ok = isinstance(prev, ast.Assign) and len(prev.targets) == 1 and isinstance(prev.targets[0], ast.Name) and prev.targets[0].id == name \
+                            and not isinstance(node, (ast.For, ast.While, ast.If, ast.Try, ast.With, ast.FunctionDef, ast.ClassDef))
+                        break
+                break
+            node = par
+        if not ok:
+            return False
+    # no other kind of binding (loop target, with-as, del, augmented assignment, global)
+    for n in ast.walk(fn):
+        if isinstance(n, ast.Name) and n.id == name and isinstance(n.ctx, (ast.Store, ast.Del)):
+            par = parent.get(id(n))
+            if not (isinstance(par, ast.Assign) and len(par.targets) == 1 and par.targets[0] is n):
+                return False
+        if isinstance(n, (ast.Global, ast.Nonlocal)) and name in n.names:
+            return False
+    return True
+
+
 def propagate_new_temporaries(fn, pinfn):
     """a local that the pinned function does not have, bound exactly once by `name = <call-free expression>` and read only in later
     statements of the same block (or nested in them), with nothing the expression reads being rebound or changed in place in
@@ -1233,7 +1328,10 @@ def propagate_new_temporaries(fn, pinfn):
             if len(st.targets) != 1 or not isinstance(st.targets[0], ast.Name):
                 continue
             name = st.targets[0].id
-            if name in pin_ids or name in params or len(stores.get(name, [])) != 1:
+            if name in pin_ids or name in params:
+                continue
+            multi = len(stores.get(name, [])) != 1
+            if multi and not _each_load_fed_by_previous_assign(fn, name, parent):
                 continue
             pure = all(isinstance(x, PURE_NODES) or _is_pure_call(x) or (isinstance(x, ast.keyword)) for x in ast.walk(st.value))
             blk_owner = parent.get(id(st))
@@ -1247,6 +1345,12 @@ def propagate_new_temporaries(fn, pinfn):
             after = blk[blk.index(st) + 1:]
             after_ids = set(id(x) for s2 in after for x in ast.walk(s2))
             uses = [x for x in ast.walk(fn) if isinstance(x, ast.Name) and x.id == name and isinstance(x.ctx, ast.Load)]
+            if multi:
+                # a name that is defined several times, every definition feeding only the statement right after it: this definition's
+                # uses are the loads in that next statement
+                nxt0 = after[0] if after else None
+                uses = [u for u in uses if nxt0 is not None and id(u) in set(id(x) for x in ast.walk(nxt0))]
+                pure = False                     # handled by the next-statement rule below (one use, evaluated once, in order)
             if not uses or not all(id(u) in after_ids for u in uses):
                 continue
             if not pure:
@@ -1372,13 +1476,25 @@ def loops_to_comprehensions(fn, pinfn):
         while i + 1 < len(body):
             a, b = body[i], body[i + 1]
             ok = isinstance(a, ast.Assign) and len(a.targets) == 1 and isinstance(a.targets[0], ast.Name) and isinstance(a.value, ast.List) and not a.value.elts \
-                and isinstance(b, ast.For) and not b.orelse and len(b.body) == 1 and ast.unparse(b.iter) not in pin_loops
+                and isinstance(b, ast.For) and not b.orelse and ast.unparse(b.iter) not in pin_loops
+            if ok and len(b.body) != 1:
+                # `if c: continue` guards in front of the append are conditions of the comprehension
+                nb_ = _nest_continue_guards(copy.deepcopy(b.body))
+                if nb_ is not None and len(nb_) == 1:
+                    b.body = nb_
+                else:
+                    ok = False
             if ok:
                 x = a.targets[0].id
                 inner = b.body[0]
                 cond = None
-                if isinstance(inner, ast.If) and not inner.orelse and len(inner.body) == 1:
-                    cond, inner = inner.test, inner.body[0]
+                conds = []
+                while isinstance(inner, ast.If) and not inner.orelse and len(inner.body) == 1:
+                    conds.append(inner.test)
+                    inner = inner.body[0]
+                if conds:
+                    # nested ifs are a conjunction evaluated left to right, like the `if` clauses of a comprehension
+                    cond = conds[0] if len(conds) == 1 else ast.BoolOp(op=ast.And(), values=conds)
                 ok = isinstance(inner, ast.Expr) and isinstance(inner.value, ast.Call) and isinstance(inner.value.func, ast.Attribute) and inner.value.func.attr == 'append' \
                     and isinstance(inner.value.func.value, ast.Name) and inner.value.func.value.id == x and len(inner.value.args) == 1 and not inner.value.keywords
                 if ok:
@@ -1547,6 +1663,157 @@ def _simple_elt(e):
     return False
 
 
+def _nest_continue_guards(body):
+    """`if c: continue` as a top-level statement of a loop body skips the rest of that body: the same as `if not c: <rest>`.
+    Returns the rewritten body when every `continue` of the body is such a guard (then none is left), else None."""
+    out = []
+    for i, st in enumerate(body):
+        if isinstance(st, ast.If) and not st.orelse and len(st.body) == 1 and isinstance(st.body[0], ast.Continue):
+            rest = _nest_continue_guards(body[i + 1:])
+            if rest is None:
+                return None
+            if rest:
+                neg = ast.UnaryOp(op=ast.Not(), operand=copy.deepcopy(st.test))
+                if isinstance(st.test, ast.Compare) and len(st.test.ops) == 1 and isinstance(st.test.ops[0], (ast.In, ast.NotIn, ast.Is, ast.IsNot, ast.Eq, ast.NotEq)):
+                    flip = {ast.In: ast.NotIn, ast.NotIn: ast.In, ast.Is: ast.IsNot, ast.IsNot: ast.Is, ast.Eq: ast.NotEq, ast.NotEq: ast.Eq}[type(st.test.ops[0])]
+                    neg = ast.Compare(left=copy.deepcopy(st.test.left), ops=[flip()], comparators=[copy.deepcopy(st.test.comparators[0])])
+                elif isinstance(st.test, ast.UnaryOp) and isinstance(st.test.op, ast.Not):
+                    neg = copy.deepcopy(st.test.operand)
+                new = ast.If(test=neg, body=rest, orelse=[])
+                ast.copy_location(new, st)
+                ast.fix_missing_locations(new)
+                out.append(new)
+            return out
+        if _contains([st], (ast.Continue,)):
+            return None
+        out.append(st)
+    return out
+
+
+def fold_rmw_temps(fn, pinfn):
+    """t = O.A ; t <op>= E ; O.A = t   (t a local used nowhere else)  is what  O.A <op>= E  does: read, in-place operator, store back."""
+    if pinfn is None or uses_textual_names(fn):
+        return 0
+    pin_ids = all_ids(pinfn)
+    done = 0
+    uses = {}
+    for n in ast.walk(fn):
+        if isinstance(n, ast.Name):
+            uses[n.id] = uses.get(n.id, 0) + 1
+
+    def visit(body):
+        nonlocal done
+        i = 0
+        while i + 2 < len(body) + 0:
+            a, b, c = body[i], body[i + 1], body[i + 2]
+            if isinstance(a, ast.Assign) and len(a.targets) == 1 and isinstance(a.targets[0], ast.Name) and isinstance(a.value, ast.Attribute) \
+                    and isinstance(b, ast.AugAssign) and isinstance(b.target, ast.Name) and b.target.id == a.targets[0].id \
+                    and isinstance(c, ast.Assign) and len(c.targets) == 1 and isinstance(c.targets[0], ast.Attribute) \
+                    and ast.unparse(c.targets[0]) == ast.unparse(a.value) and isinstance(c.value, ast.Name) and c.value.id == a.targets[0].id \
+                    and a.targets[0].id not in pin_ids and uses.get(a.targets[0].id) == 3 \
+                    and not any(isinstance(n, ast.Name) and n.id == a.targets[0].id for n in ast.walk(b.value)):
+                tgt = copy.deepcopy(a.value)
+                tgt.ctx = ast.Store()
+                new = ast.AugAssign(target=tgt, op=b.op, value=b.value)
+                ast.copy_location(new, a)
+                ast.fix_missing_locations(new)
+                body[i:i + 3] = [new]
+                done += 1
+                continue
+            i += 1
+        for st in body:
+            if isinstance(st, SCOPES):
+                continue
+            for fld in ('body', 'orelse', 'finalbody'):
+                sub_ = getattr(st, fld, None)
+                if isinstance(sub_, list) and sub_ and isinstance(sub_[0], ast.stmt):
+                    visit(sub_)
+            for h in getattr(st, 'handlers', []) or []:
+                visit(h.body)
+    visit(fn.body)
+    return done
+
+
+def flags_to_forelse(fn, pinfn):
+    """F = False ; for ...: ... F = True ; break ...  ; if not F: ELSE     (F used nowhere else)
+    is the loop with an else clause: the else suite runs exactly when the loop was not left by break.  Restored where the pinned
+    function has a for/else and the current one has fewer."""
+    if pinfn is None or uses_textual_names(fn):
+        return 0
+
+    def nforelse(f):
+        return sum(1 for n in ast.walk(f) if isinstance(n, ast.For) and n.orelse)
+    if not nforelse(pinfn) > nforelse(fn):
+        return 0
+    pin_ids = all_ids(pinfn)
+    done = 0
+
+    def visit(body):
+        nonlocal done
+        i = 0
+        while i < len(body):
+            st = body[i]
+            if isinstance(st, ast.For) and not st.orelse and i + 1 < len(body):
+                nxt = body[i + 1]
+                flag = None
+                if isinstance(nxt, ast.If) and not nxt.orelse and isinstance(nxt.test, ast.UnaryOp) and isinstance(nxt.test.op, ast.Not) and isinstance(nxt.test.operand, ast.Name):
+                    flag, want = nxt.test.operand.id, True
+                if flag is not None and flag not in pin_ids:
+                    # initialisation: `flag = False` somewhere before the loop in this block, nothing else touching the flag in between
+                    init = [j for j in range(i) if isinstance(body[j], ast.Assign) and len(body[j].targets) == 1 and isinstance(body[j].targets[0], ast.Name)
+                            and body[j].targets[0].id == flag and isinstance(body[j].value, ast.Constant) and body[j].value.value is False]
+                    allnames = [n for n in ast.walk(fn) if isinstance(n, ast.Name) and n.id == flag]
+                    breaks = [n for n in ast.walk(st) if isinstance(n, ast.Break)]
+                    sets = []
+                    ok = bool(init) and bool(breaks)
+                    # every break of this loop (not of a nested loop) is directly preceded by `flag = True`
+                    def own_breaks(node, top=True):
+                        out = []
+                        for fld in ('body', 'orelse', 'finalbody'):
+                            b = getattr(node, fld, None)
+                            if not isinstance(b, list):
+                                continue
+                            for k, s2 in enumerate(b):
+                                if isinstance(s2, ast.Break):
+                                    prev = b[k - 1] if k > 0 else None
+                                    out.append((b, k, prev))
+                                elif isinstance(s2, (ast.For, ast.While)):
+                                    continue
+                                elif not isinstance(s2, SCOPES):
+                                    out.extend(own_breaks(s2, False))
+                        for h in getattr(node, 'handlers', []) or []:
+                            out.extend(own_breaks(h, False))
+                        return out
+                    ob = own_breaks(st)
+                    for b, k, prev in ob:
+                        if not (isinstance(prev, ast.Assign) and len(prev.targets) == 1 and isinstance(prev.targets[0], ast.Name) and prev.targets[0].id == flag
+                                and isinstance(prev.value, ast.Constant) and prev.value.value is True):
+                            ok = False
+                        else:
+                            sets.append((b, prev))
+                    # the flag is used for nothing else: init store, one store per break, the one test
+                    if ok and len(allnames) == 1 + len(sets) + 1 and len(init) == 1:
+                        for b, prev in sets:
+                            b.remove(prev)
+                        st.orelse = nxt.body
+                        del body[i + 1]
+                        del body[init[0]]
+                        done += 1
+                        i = max(0, i - 1)
+                        continue
+            for fld in ('body', 'orelse', 'finalbody'):
+                sub_ = getattr(st, fld, None)
+                if isinstance(sub_, list) and sub_ and isinstance(sub_[0], ast.stmt) and not isinstance(st, SCOPES):
+                    visit(sub_)
+            for h in getattr(st, 'handlers', []) or []:
+                visit(h.body)
+            i += 1
+    visit(fn.body)
+    if done:
+        ast.fix_missing_locations(fn)
+    return done
+
+
 def unroll_literal_loops(fn, pinfn):
     """`for a, b in ((x1, y1), (x2, y2), ...): BODY` over a literal table of plain names / constants / attributes that the pinned
     function does not have is the sequence BODY[x1, y1]; BODY[x2, y2]; ... (the table may be a local bound once to the literal).
@@ -1587,6 +1854,11 @@ def unroll_literal_loops(fn, pinfn):
             if isinstance(st, ast.For) and not st.orelse:
                 it = st.iter
                 tname = None
+                itv = tables[it.id].value if isinstance(it, ast.Name) and it.id in tables else it
+                if isinstance(itv, (ast.Tuple, ast.List)) and 2 <= len(itv.elts) <= 16 and canon_seq(itv) not in pin_iters:
+                    nested = _nest_continue_guards(st.body)
+                    if nested is not None:
+                        st.body = nested
                 if isinstance(it, ast.Name) and it.id in tables:
                     tname = it.id
                     it = tables[it.id].value
@@ -1791,6 +2063,24 @@ def attribute_spelling(fn, pinfn):
                     t = st.targets[0]
                     b[i] = ast.copy_location(ast.Expr(value=ast.copy_location(ast.Call(func=ast.Name(id='setattr', ctx=ast.Load()), args=[t.value, ast.Constant(value=t.attr), st.value], keywords=[]), st)), st)
                     done += 1
+    # getattr(X, 'name') with two arguments is the attribute access X.name (a missing attribute raises AttributeError either way);
+    # restored where the pinned function reads that attribute directly and never through getattr
+    pin_load = set(n.attr for n in ast.walk(pinfn) if isinstance(n, ast.Attribute))
+    pin_get = set(n.args[1].value for n in ast.walk(pinfn) if isinstance(n, ast.Call) and isinstance(n.func, ast.Name) and n.func.id == 'getattr'
+                  and len(n.args) >= 2 and isinstance(n.args[1], ast.Constant))
+
+    class G(ast.NodeTransformer):
+        def visit_Call(self, n):
+            nonlocal done
+            self.generic_visit(n)
+            if isinstance(n.func, ast.Name) and n.func.id == 'getattr' and len(n.args) == 2 and not n.keywords and isinstance(n.args[1], ast.Constant) \
+                    and isinstance(n.args[1].value, str) and n.args[1].value.isidentifier() and not n.args[1].value.startswith('__') \
+                    and n.args[1].value in pin_load and n.args[1].value not in pin_get:
+                done += 1
+                return ast.copy_location(ast.Attribute(value=n.args[0], attr=n.args[1].value, ctx=ast.Load()), n)
+            return n
+    for i, st in enumerate(fn.body):
+        fn.body[i] = G().visit(st)
     if done:
         ast.fix_missing_locations(fn)
     return done
@@ -1831,6 +2121,8 @@ def normalize(relpath, text, tree):
         nf += formatting_idiom(fn, p[0])
         nu += unroll_literal_loops(fn, p[0])
         na += attribute_spelling(fn, p[0])
+        na += fold_rmw_temps(fn, p[0])
+        nb += flags_to_forelse(fn, p[0])
         nb += branch_shapes(fn, p[0])
         for _round in range(3):
             c_ = loops_to_comprehensions(fn, p[0])
